@@ -134,7 +134,7 @@ def load(bins: list, minimum, maximum):  # pragma: no cover
     dgram.diffs = []
 
     for i in range(len(dgram.bins) - 1):
-        diff = dgram.bins[i][0] - dgram.bins[i - 1][0]
+        diff = dgram.bins[i + 1][0] - dgram.bins[i][0]
         dgram.diffs.append(diff)
     if dgram.diffs:
         dgram.min_diff = min(dgram.diffs)
